@@ -152,7 +152,8 @@ def _channel(a, ser: str, net_fault: str | None) -> dict:
         ext = a.choice([".json", ".json", ".json", ".yaml", ""])
     else:
         ext = a.choice([".yaml", ".yml", ".yaml", "", ".json", ".txt"])
-    return {"kind": "file", "ext": ext}
+    # the document file may not be there at all, be a directory, or a dangling symbolic link
+    return {"kind": "file", "ext": ext, "state": a.choice([None] * 16 + ["missing", "directory", "dangling-symlink"])}
 
 
 def payload_of(spec: dict) -> bytes:
@@ -192,8 +193,15 @@ def run_spec(args: dict, sandbox: str) -> dict:
     argv = ["generate", "--config", cfgpath, "--meta", spec["meta"]]
     if ch["kind"] == "file":
         docpath = os.path.join(sandbox, "document" + ch["ext"])
-        with open(docpath, "wb") as f:
-            f.write(data)
+        if ch.get("state") == "missing":
+            pass  # --path names a file that does not exist
+        elif ch.get("state") == "directory":
+            os.makedirs(docpath)  # --path names a directory
+        elif ch.get("state") == "dangling-symlink":
+            os.symlink(os.path.join(sandbox, "nowhere"), docpath)
+        else:
+            with open(docpath, "wb") as f:
+                f.write(data)
         argv += ["--path", docpath]
     else:
         argv += ["--url", ch["url"]]
@@ -414,6 +422,8 @@ def shrink_candidates(spec: dict) -> list[dict]:
         out.append(variant(channel={"kind": "file", "ext": ".json" if spec["ser"].startswith("json") else ".yaml"}))
     if spec["fail_on_warning"]:
         out.append(variant(fail_on_warning=False))
+    if spec["channel"].get("state"):
+        out.append(variant(channel=dict(spec["channel"], state=None)))
     if spec["output"] != "explicit":
         out.append(variant(output="explicit"))
     if spec.get("precreate"):
